@@ -1438,7 +1438,7 @@ func TestDriver(t *testing.T) {
 		}
 	}()
 	for i, sc := range scenarios {
-		key := fmt.Sprintf("trace_r%d_c%d.ndjson", sc.Range, sc.Conc)
+		key := fmt.Sprintf("%strace_r%d_c%d.ndjson", vh.Env("VERIF_TRACE_PREFIX", ""), sc.Range, sc.Conc)
 		f := files[key]
 		if f == nil {
 			var err error
